@@ -11,7 +11,7 @@ import (
 
 func init() {
 	register("C05", propMeta{
-		Explanation: "E-PROV + E-GUARD + E-OWN on the server's carrier path. O-1 one identity per carrier: in turbotunnelMode the address given to QueueIncoming, the argument of OutgoingQueue and the key of clientIDAddrMap.Set all load from one local ClientID whose only writer is io.ReadFull(conn, clientID[:]), and all are reachable only through that read's err == nil edge; the packets queued are the results of encapsulation.ReadData on this carrier and the packets written to it are the values received from that OutgoingQueue, through a writer created by this invocation around this carrier (no state shared between carriers). O-2 token gate: turbotunnelMode is reachable only through the true edge of bytes.Equal(token, turbotunnel.Token) with token filled by a successful io.ReadFull; QueueIncoming/OutgoingQueue/Set are called from turbotunnelMode only; the carrier is closed on every path (deferred Close). O-3 address-tag integrity in the queue connection: QueueIncoming enqueues its addr parameter with its packet, ReadFrom returns P and Addr of one received element, WriteTo and OutgoingQueue use SendQueue(addr) of their parameter, and enqueued packets are private copies (shared with C17 O-4). O-4 map/heap index consistency of the client map (Swap/Push/Pop/SendQueue keep byAddr[record.Addr] = position). O-5 typed addresses: every QueueIncoming/OutgoingQueue call passes a turbotunnel.ClientID and ClientID.String() encodes the whole identifier (KCP keys sessions by the address string). O-6 one accepted connection per stream: queueConn is called once per successful AcceptStream, from acceptStreams only, and is the only sender on the accept queue. Added after the second seeding round: O-6/C01 the protocol-constant obligations of C01 including the smux keep-alive timeout against the client-map retention; a ClientID cell that is not filled by io.ReadFull is a violation; helpers of turbotunnelMode with one call site count as part of it. Added after the third seeding round: the per-session goroutine of the accept loop captures per-iteration variables only; every carrier records its address (empty included) before it is served, so a later carrier's absence of an address cannot leave an earlier one in place.",
+		Explanation: "E-PROV + E-GUARD + E-OWN on the server's carrier path. O-1 one identity per carrier: in turbotunnelMode the address given to QueueIncoming, the argument of OutgoingQueue and the key of clientIDAddrMap.Set all load from one local ClientID whose only writer is io.ReadFull(conn, clientID[:]), and all are reachable only through that read's err == nil edge; the packets queued are the results of encapsulation.ReadData on this carrier and the packets written to it are the values received from that OutgoingQueue, through a writer created by this invocation around this carrier (no state shared between carriers). O-2 token gate: turbotunnelMode is reachable only through the true edge of bytes.Equal(token, turbotunnel.Token) with token filled by a successful io.ReadFull; QueueIncoming/OutgoingQueue/Set are called from turbotunnelMode only; the carrier is closed on every path (deferred Close). O-3 address-tag integrity in the queue connection: QueueIncoming enqueues its addr parameter with its packet, ReadFrom returns P and Addr of one received element, WriteTo and OutgoingQueue use SendQueue(addr) of their parameter, and enqueued packets are private copies (shared with C17 O-4). O-4 map/heap index consistency of the client map (Swap/Push/Pop/SendQueue keep byAddr[record.Addr] = position). O-5 typed addresses: every QueueIncoming/OutgoingQueue call passes a turbotunnel.ClientID and ClientID.String() encodes the whole identifier (KCP keys sessions by the address string). O-6 one accepted connection per stream: queueConn is called once per successful AcceptStream, from acceptStreams only, and is the only sender on the accept queue. Added after the second seeding round: O-6/C01 the protocol-constant obligations of C01 including the smux keep-alive timeout against the client-map retention; a ClientID cell that is not filled by io.ReadFull is a violation; helpers of turbotunnelMode with one call site count as part of it. Added after the third seeding round: the per-session goroutine of the accept loop captures per-iteration variables only; every carrier records its address (empty included) before it is served, so a later carrier's absence of an address cannot leave an earlier one in place. Added after the fourth seeding round: O-4 no byAge[i] is read after heap.Fix/Push/Pop moved the records, and Swap re-indexes the record that ends up in each slot; O-9/C17 the queue connection reports an error only after close (a full queue reported as an error makes KCP end the session at the first gap between carriers).",
 		NotDecided:  "continuity of the byte stream across carriers (KCP), the retention arithmetic (C17 O-7), packet interleaving of overlapping carriers, kcp-go's own session table.",
 		Assumptions: []string{"kcp-go keys its sessions by RemoteAddr().String()", "encapsulation.ReadData returns a fresh slice per packet"},
 	}, runC05)
@@ -312,6 +312,11 @@ func runC05(c *Ctx) {
 
 	// ---------- O-4 client map index consistency ----------
 	c.checkClientMapIndex()
+	// a session outlives a gap between carriers only if the queue connection never reports a full queue (or any
+	// other transient condition) as an error: KCP closes the session on the first WriteTo error (C17's obligation)
+	c.prefix = "O-9/C17:"
+	c.checkErrorsOnlyAfterClose("QueuePacketConn")
+	c.prefix = ""
 
 	// ---------- O-5 typed addresses / identity string ----------
 	rule5 := "O-5 typed addresses"
@@ -330,19 +335,7 @@ func runC05(c *Ctx) {
 			c.check(bt != nil && strings.HasSuffix(typeString(bt), "turbotunnel.ClientID"), rule5, p.FnName(fn)+" addresses the queue connection by ClientID", p.instrPos(ci), "", "an address that is not a turbotunnel.ClientID reaches KCP: the single-value assertion in acceptStreams panics or sessions are keyed by something else")
 		}
 	}
-	if str := p.Fn("common/turbotunnel", "(ClientID).String"); str != nil {
-		ok := false
-		for _, r := range returnsOf(str) {
-			if cc, _, okc := callResult(r.Results[0]); okc && calleeName(cc) == "encoding/hex.EncodeToString" {
-				if sl, oks := cc.Call.Args[0].(*ssa.Slice); oks && sl.Low == nil && sl.High == nil {
-					ok = true
-				}
-			}
-		}
-		c.check(ok, rule5, "ClientID.String() encodes the whole identifier", p.Pos(str.Pos()), "hex of id[:]", "the address string does not cover all bytes of the ClientID: KCP, which keys sessions by RemoteAddr().String(), merges distinct clients into one session")
-	} else {
-		c.undecided(rule5, "ClientID.String", "-", "anchor does not resolve")
-	}
+	c.checkClientIDString(rule5)
 	// the assertion in acceptStreams
 	if as := p.Fn("server/lib", "(*SnowflakeListener).acceptStreams"); as != nil {
 		n := 0
@@ -565,19 +558,42 @@ func (c *Ctx) checkClientMapIndex() {
 				}
 			}
 		})
+		// the exchange: stores into the slots byAge[k]
+		type slotStore struct {
+			st  *ssa.Store
+			idx ssa.Value
+		}
+		var slots []slotStore
+		allInstrs(swap, func(in ssa.Instruction) {
+			if st, isSt := in.(*ssa.Store); isSt {
+				if ia, isIA := st.Addr.(*ssa.IndexAddr); isIA {
+					slots = append(slots, slotStore{st, ia.Index})
+				}
+			}
+		})
 		for _, mu := range byAddrUpdates(swap) {
-			// key = byAge[idx].Addr where idx == value
-			var idx ssa.Value
+			// key = R.Addr where R is the record that sits in slot mu.Value after the exchange: read back from
+			// that slot after the exchange, or the very value the exchange stored there
 			keyOK := false
-			if _, f, okf := fieldLoad(mu.Key); okf && f.Name() == "Addr" {
-				flows(mu.Key, func(w ssa.Value) bool {
-					if ia, okia := w.(*ssa.IndexAddr); okia {
-						idx = ia.Index
-						return true
+			if base, f, okf := fieldLoad(mu.Key); okf && f.Name() == "Addr" {
+				rec := strip(base)
+				if ld, isLd := rec.(*ssa.UnOp); isLd {
+					if ia, okia := ld.X.(*ssa.IndexAddr); okia && ia.Index == mu.Value {
+						keyOK = true
+						for _, sl := range slots {
+							if !precedes(sl.st, ld) {
+								keyOK = false
+							}
+						}
 					}
-					return false
-				})
-				keyOK = idx != nil && idx == mu.Value
+				}
+				if !keyOK {
+					for _, sl := range slots {
+						if strip(sl.st.Val) == rec && sl.idx == mu.Value {
+							keyOK = true
+						}
+					}
+				}
 			}
 			if !keyOK || (lastExchange != nil && !precedes(lastExchange, mu)) {
 				ok = false
@@ -632,6 +648,30 @@ func (c *Ctx) checkClientMapIndex() {
 			}
 		}
 		c.check(okLk && okNew, rule, "SendQueue looks up and creates records by its addr parameter", p.Pos(sq.Pos()), "", "the send queue is not keyed by the requested address")
+		// an index found before heap.Fix/Push/Pop/Remove is stale afterwards: the record is read before the heap moves it
+		stale := ""
+		for _, hc := range callsTo(sq, "container/heap.Fix", "container/heap.Push", "container/heap.Pop", "container/heap.Remove") {
+			allInstrs(sq, func(in ssa.Instruction) {
+				ia, ok := in.(*ssa.IndexAddr)
+				if !ok {
+					return
+				}
+				if _, f, okf := fieldLoad(ia.X); !okf || f.Name() != "byAge" {
+					return
+				}
+				if _, isConst := ia.Index.(*ssa.Const); isConst {
+					return
+				}
+				if canFollow(hc, ia) && !canFollow(ia, hc) {
+					stale = p.instrPos(ia)
+				} else if canFollow(hc, ia) && ia.Block() != hc.Block() {
+					stale = p.instrPos(ia)
+				} else if ia.Block() == hc.Block() && instrIndex(hc) < instrIndex(ia) {
+					stale = p.instrPos(ia)
+				}
+			})
+		}
+		c.check(stale == "", rule, "SendQueue reads the record before the heap reorders it", p.Pos(sq.Pos()), "no byAge[i] after heap.Fix/Push", "byAge is indexed with a position obtained before heap.Fix/Push/Pop moved the records ("+stale+"): the queue returned belongs to whichever client now sits at that position")
 		// returns the SendQueue of that record
 		okRet := false
 		for _, r := range returnsOf(sq) {
@@ -695,4 +735,24 @@ func copyOrigin(a ssa.Value) ssa.Value {
 		a = next
 	}
 	return a
+}
+
+// checkClientIDString: ClientID.String() is the hex of the whole identifier. KCP
+// keys its session table by the remote address's string; a shortened form merges
+// clients whose identifiers share a prefix into one session.
+func (c *Ctx) checkClientIDString(rule5 string) {
+	p := c.P
+	if str := p.Fn("common/turbotunnel", "(ClientID).String"); str != nil {
+		ok := false
+		for _, r := range returnsOf(str) {
+			if cc, _, okc := callResult(r.Results[0]); okc && calleeName(cc) == "encoding/hex.EncodeToString" {
+				if sl, oks := cc.Call.Args[0].(*ssa.Slice); oks && sl.Low == nil && sl.High == nil {
+					ok = true
+				}
+			}
+		}
+		c.check(ok, rule5, "ClientID.String() encodes the whole identifier", p.Pos(str.Pos()), "hex of id[:]", "the address string does not cover all bytes of the ClientID: KCP, which keys sessions by RemoteAddr().String(), merges distinct clients into one session")
+	} else {
+		c.undecided(rule5, "ClientID.String", "-", "anchor does not resolve")
+	}
 }
